@@ -605,90 +605,112 @@ def check_sched(ctx, c, n):
 
 
 # ---- the real-time clocks as users: library-defined item identity (Function wrappers, Routines) ---------------
-def gen_rt_batch(rng, clock):
+def gen_rt_batch(rng, clock, past=False, inside=False):
+    """a batch for a real-time clock: ties, the same function / object scheduled again, tasks that schedule further
+    tasks while they wake (before, with and after entries already due); 'past' = everything due in ONE wake cycle"""
     items, slot = [], {}
-    n = rng.randint(4, 9)
-    for i in range(n):
-        kind = rng.choice(['plain', 'plain', 'plain', 'wrap', 'rout'])
+    uid = iter(range(1000))
+
+    def nested(depth):
+        return [['n%d' % next(uid), rng.choice([0, 0, 1, 1, 2, 3]), nested(depth - 1) if depth and rng.random() < 0.3 else []]
+                for _ in range(rng.choice([0, 0, 1, 1, 2]))]
+    for i in range(rng.randint(3, 8)):
+        kind = rng.choice(['plain', 'plain', 'plain', 'wrap'] + ([] if clock == 'app' else ['rout']))
         obj = rng.randrange(2)
         if kind == 'plain':                      # the same python function again: later slot, a NEW queue item
-            k = slot.get(obj, 0) + rng.randint(1, 3)
+            k = slot.get(obj, 0) + rng.randint(0 if obj not in slot else 1, 2)
             slot[obj] = k
         else:
-            k = rng.randint(1, 8)
-        items.append(['%s%d.%d' % (kind[0], obj, i), kind, obj, k])
-    q = oracle.SortedListQueue()
-    label = {}
-    for i, (lab, kind, obj, k) in enumerate(items):
-        key = ('p', i) if kind == 'plain' else (kind, obj)     # distinct wrappers are distinct items; same object = re-add
-        q.add(Fraction(k), key); label[key] = lab
-    exp = [label[t] for _, t in q]
-    return {'clock': clock, 'tempo': rng.choice(['1', '2']), 'items': items, 'expect': len(exp)}, exp
+            k = rng.randint(0, 6)
+        items.append(['%s%d.%d' % (kind[0], obj, i), kind, obj, k, nested(1) if kind == 'plain' else []])
+    return {'clock': clock, 'tempo': rng.choice(['1', '2']), 'past': past, 'inside': inside, 'items': items, 'expect': 0}
 
 
-def gen_app_batch(rng, inside):
-    """several tasks due at ONE AppClock tick (delta slot 0 dominates), some Function objects scheduled again"""
-    items = []
-    for i in range(rng.randint(3, 8)):
-        kind = rng.choice(['plain', 'plain', 'plain', 'wrap'])
-        items.append(['%s%d' % (kind[0], i), kind, rng.randrange(2), rng.choice([0, 0, 0, 1, 1, 2])])
-    keys = {('w', it[2]) if it[1] == 'wrap' else ('p', n) for n, it in enumerate(items)}
-    return {'clock': 'app', 'inside': inside, 'items': items, 'expect': len(keys)}
+def rt_labels(b):
+    """labels that must wake: one per queue item (the same object again = one item), plus everything scheduled on the way"""
+    last = {}
+    for n, (lab, kind, obj, k, nested) in enumerate(b['items']):
+        last[('p', n) if kind == 'plain' else (kind, obj)] = (lab, nested)
+    out = []
+
+    def walk(nested):
+        for lab, d, sub in nested:
+            out.append(lab); walk(sub)
+    for lab, nested in last.values():
+        out.append(lab); walk(nested)
+    return out
 
 
-def app_expected(b, r):
-    """reference order from the due times read back from the queue: (time, scheduling order); the same object = re-add"""
-    due = {lab: Fraction(float(t)) for lab, t in r.get('queued', [])}
+def rt_expected(b, r):
+    """reference queue fed with the additions in the order they happened (due times read back from the clock's queue)"""
+    added = r.get('added') or []
+    if any(t is None for _, t, _ in added):
+        return None
+    top = [a for a in added if a[2] is None]
+    kids = {}
+    for lab, t, parent in added:
+        if parent is not None:
+            kids.setdefault(parent, []).append((lab, Fraction(float(t))))
+    if len(top) != len(b['items']):
+        return None
     q, label = oracle.SortedListQueue(), {}
-    for n, (lab, kind, obj, k) in enumerate(b['items']):
-        key = ('w', obj) if kind == 'wrap' else ('p', n)
+    for n, ((lab, kind, obj, k, nested), (_, t, _)) in enumerate(zip(b['items'], top)):
+        key = ('p', n) if kind == 'plain' else (kind, obj)
         label[key] = lab
-    for n, (lab, kind, obj, k) in enumerate(b['items']):
-        key = ('w', obj) if kind == 'wrap' else ('p', n)
-        if label[key] == lab and lab in due:              # the last scheduling of an object is the one queued
-            q.add(due[lab], key)
-        elif label[key] == lab:
-            return None
-    return [label[t] for _, t in q]
+        q.add(Fraction(float(t)), key)                       # the same object again = re-add
+    exp = []
+    while not q.empty() and len(exp) < 500:
+        _, key = q.pop()
+        lab = label[key]
+        exp.append(lab)
+        for n, (kl, kt) in enumerate(kids.get(lab, [])):     # what the task scheduled while it woke, in that order
+            label[('k', kl)] = kl
+            q.add(kt, ('k', kl))
+    return exp
 
 
 def check_rt(ctx, c, n):
-    pairs = [gen_rt_batch(ctx.rng, 'system' if i % 2 == 0 else 'tempo') for i in range(n)]
-    pairs += [(gen_app_batch(ctx.rng, inside=(i % 2 == 1)), None) for i in range(n)]
-    pairs += [({'clock': 'app', 'inside': True, 'expect': 3, 'items': [['a', 'plain', 0, 0], ['b', 'plain', 0, 0], ['c', 'plain', 0, 0]]}, None)]
-    # the minimal shape first: one function scheduled twice with another task in between
-    fixed = {'clock': 'system', 'tempo': '1', 'expect': 3, 'items': [['tick1', 'plain', 0, 1], ['other', 'plain', 1, 2], ['tick2', 'plain', 0, 3]]}
-    pairs = [(fixed, ['tick1', 'other', 'tick2']), (dict(fixed, clock='tempo', tempo='2'), ['tick1', 'other', 'tick2'])] + pairs
+    rng = ctx.rng
+    fixed = [[['tick1', 'plain', 0, 1, []], ['other', 'plain', 1, 2, []], ['tick2', 'plain', 0, 3, []]],
+             # A due first schedules C before B, D with B and E after B, all while B is already due
+             [['A', 'plain', 0, 1, [['C', 1, []], ['D', 2, []], ['E', 3, []]]], ['B', 'plain', 1, 3, []]],
+             [['a', 'plain', 0, 0, []], ['b', 'plain', 1, 0, []], ['c', 'plain', 2, 0, []]]]
+    bs = []
+    for clock in ('system', 'tempo', 'app'):
+        for it in fixed:
+            bs.append({'clock': clock, 'tempo': '2', 'past': True, 'inside': False, 'items': it})
+    bs.append({'clock': 'app', 'past': False, 'inside': True, 'items': fixed[2]})
+    for i in range(n):
+        for clock in ('system', 'tempo', 'app'):
+            bs.append(gen_rt_batch(rng, clock, past=rng.random() < 0.7, inside=(clock == 'app' and rng.random() < 0.4)))
+    for b in bs:
+        b['expect'] = len(rt_labels(b))
     try:
-        res = ctx.impl('c09_rt', {'batches': [b for b, _ in pairs]}, mode='rt', timeout=900)['out']
+        res = ctx.impl('c09_rt', {'batches': bs}, mode='rt', timeout=900)['out']
     except fw.ImplError as e:
         c.notes.append('real-time clock batches not run (runner failed): %s' % str(e)[-300:])
         return []
     out = []
-    for (b, exp), r in zip(pairs, res):
-        c.count('user:rt-' + b['clock'] + ('-inside' if b.get('inside') else '')); c.evaluations += 1
-        if b['clock'] == 'app':
-            exp = app_expected(b, r) if 'error' not in r else None
-            if exp is None:
-                out.append(Failure('search', 'AppClock batch: scheduled tasks are missing from the queue or the runner failed: %s for %s'
-                                   % (r, json.dumps(b)), signature='C09:user-rt:app', replay={'rt_batches': [b], 'observed': r},
-                                   found_input=True, theorem='item_at_most_once'))
-                continue
-            ts = [t for _, t in r.get('queued', [])]
-            if len(set(ts)) < len(ts) or len(ts) > 1: c.count('user:rt-app-several-due-at-one-tick')
-        if r.get('log') == exp:
+    for b, r in zip(bs, res):
+        c.count('user:rt-' + b['clock'] + ('-inside' if b.get('inside') else '') + ('-one-cycle' if b.get('past') else ''))
+        c.evaluations += 1
+        if any(it[4] for it in b['items']): c.count('user:rt-schedules-while-waking')
+        exp = rt_expected(b, r) if 'error' not in r else None
+        log = r.get('log')
+        if exp is not None and log == exp and sorted(exp) == sorted(rt_labels(b)):
             c.nontriv(('rt', json.dumps(b, sort_keys=True)))
             continue
-        if r.get('log') is not None and not r.get('complete', True) and exp[:len(r['log'])] == r['log']:
-            c.notes.append('real-time batch not judged: only %d of %d wake-ups within 12 s (machine load)' % (len(r['log']), len(exp)))
+        if exp is not None and log is not None and not r.get('complete', True) and exp[:len(log)] == log:
+            c.notes.append('real-time batch not judged: only %d of %d wake-ups within 12 s (machine load)' % (len(log), len(exp)))
             continue
-        if len(out) < 2:
-            out.append(Failure('search', 'real-time %s clock: wake-ups %s, expected %s (each sched of a plain function is a new queue '
-                               'item; the same Function / Routine object again replaces its pending wake-up) for batch %s%s'
-                               % (b['clock'], r.get('log', r), exp, json.dumps(b['items']),
+        if len(out) < 3:
+            out.append(Failure('search', 'real-time %s clock: wake-ups %s, expected %s (reference queue fed with the additions in the order '
+                               'they happened: %s; each sched of a plain function is a new item, the same Function / Routine object again '
+                               'replaces its pending wake-up, a task may schedule others while it wakes) for batch %s%s'
+                               % (b['clock'], log if log is not None else r, exp, r.get('added'), json.dumps(b),
                                   '' if r.get('complete', True) else ' -- wake-ups are MISSING after 12 s'),
-                               signature='C09:user-rt:at-most-once', replay={'rt_batches': [b], 'observed': r, 'expected': exp},
-                               found_input=True, theorem='remove_frames_others'))
+                               signature='C09:user-rt:' + b['clock'], replay={'rt_batches': [b], 'observed': r, 'expected': exp},
+                               found_input=True, theorem='pop_nondecreasing'))
     return out
 
 
